@@ -51,6 +51,11 @@ Proof.
       repeat split; auto.
       * cbn [app]. repeat constructor; auto.
       * intros i Hi. destruct i as [|[|[|i]]]; cbn in Hi; try discriminate. eapply D; eauto.
+    + rewrite T by exact H.
+      specialize (IH s H). destruct (run s es) as [s2 os]. destruct IH as (A & B & C & D).
+      repeat split; auto.
+      * cbn [app]. repeat constructor; auto.
+      * intros i Hi. destruct i as [|[|[|i]]]; cbn in Hi; try discriminate. eapply D; eauto.
 Qed.
 
 (* no timeout configured (T indefinite): pings, never a timeout *)
@@ -209,4 +214,18 @@ Proof.
   cbn [negb orb]. destruct (s_now s + d <? s_next s); [cbn; auto|].
   rewrite N.sub_diag. destruct (k_to (s_cfg s)) as [t|]; cbn [s_running nth_error]; auto.
   destruct (N.ltb_spec t 0); [lia|]. cbn [s_running nth_error]. auto.
+Qed.
+
+(* a Ping the peer sends on its own is no evidence that our pings are answered: it never
+   refreshes the time of the last pong, so it cannot postpone the detection of a dead answer path *)
+Lemma tick_last_pong s : s_last_pong (fst (fst (tick s))) = s_last_pong s.
+Proof.
+  unfold tick. destruct (k_int (s_cfg s)); [|reflexivity].
+  destruct (negb (s_running s) || (s_now s <? s_next s)); [reflexivity|].
+  destruct (k_to (s_cfg s)) as [t|]; [destruct (t <? s_now s - s_last_pong s)|]; reflexivity.
+Qed.
+
+Theorem peer_ping_is_no_answer s : s_last_pong (fst (step s PingIn)) = s_last_pong s.
+Proof.
+  cbn [step]. pose proof (tick_last_pong s) as H. destruct (tick s) as [[s' p] to]. exact H.
 Qed.
